@@ -418,7 +418,7 @@ func (ft *FT) call(st *State, guard Term, c *ssa.CallCommon, preArgs []Term, ins
 			if s != "Int" && s != "Bool" && s != "Str" && s != "F64" {
 				scalar = false
 			}
-			if _, isPtr := at.Underlying().(*types.Pointer); isPtr {
+			if _, isPtr := at.Underlying().(*types.Pointer); isPtr && !immutablePointee(at) {
 				scalar = false
 			}
 			sorts = append(sorts, s)
@@ -1255,6 +1255,15 @@ func storesTo(fn *ssa.Function, fv *ssa.FreeVar) bool {
 		default:
 			return true // address escapes further: assume it may be assigned
 		}
+	}
+	return false
+}
+
+// immutablePointee: pointer types whose pointee never changes after construction (safe to treat calls on them as functions of the pointer)
+func immutablePointee(t types.Type) bool {
+	switch types.TypeString(t, nil) {
+	case "*regexp.Regexp":
+		return true
 	}
 	return false
 }
